@@ -197,9 +197,18 @@ pub fn chain_routine(benef: bool, destroy: bool, fund: bool) -> BoxedStrategy<Ve
             let c = if neg { Expr::IsZero(Box::new(Expr::SLoad(a))) } else { Expr::SLoad(a) };
             Stmt::If(c, vec![Stmt::Call { kind: CallKind::Call, target: AddrRef::Eoa(k), value: 1_000_000_000_000_000_000, sel: 0, arg: None, small_gas: false, store: None }], vec![])
         })).boxed()));
-    alts.push(((if destroy { 3 } else { 0 }), ((slot(), any::<bool>(), prop_oneof![Just(AddrRef::Absent(0)), Just(AddrRef::Eoa(0)), Just(AddrRef::Benef)]).prop_map(|(a, neg, to)| {
+    alts.push(((if destroy { 1 } else { 0 }), ((slot(), any::<bool>(), prop_oneof![Just(AddrRef::Absent(0)), Just(AddrRef::Eoa(0)), Just(AddrRef::Benef)]).prop_map(|(a, neg, to)| {
             let c = if neg { Expr::IsZero(Box::new(Expr::SLoad(a))) } else { Expr::SLoad(a) };
             Stmt::If(c, vec![Stmt::SelfDestruct(to)], vec![])
+        })).boxed()));
+    // the victim contract Con(1) (installed by the template): sel 1 self-destructs it, sel 2 writes
+    // its slot 0, sel 0 returns SLOAD(0)+SLOAD(1); whether it is destroyed depends on a guard slot
+    alts.push(((if destroy { 4 } else { 0 }), ((slot(), any::<bool>(), any::<bool>()).prop_map(|(a, neg, in_reverting_frame)| {
+            let c = if neg { Expr::IsZero(Box::new(Expr::SLoad(a))) } else { Expr::SLoad(a) };
+            Stmt::If(c, vec![Stmt::Call { kind: CallKind::Call, target: AddrRef::Con(1), value: 0, sel: if in_reverting_frame { 3 } else { 1 }, arg: None, small_gas: false, store: None }], vec![])
+        })).boxed()));
+    alts.push(((if destroy { 4 } else { 0 }), ((slot(), 0u8..3).prop_map(|(st, which)| {
+            Stmt::Call { kind: CallKind::Call, target: AddrRef::Con(1), value: 0, sel: if which == 2 { 2 } else { 0 }, arg: Some(9), small_gas: false, store: Some(st) }
         })).boxed()));
     alts.push(((if destroy { 3 } else { 0 }), ((slot(), any::<bool>(), any::<bool>(), 0u8..2, 0u8..INIT_KINDS, proptest::option::weighted(0.5, 0u8..4)).prop_map(|(a, neg, create2, salt, init, store)| {
             let c = if neg { Expr::IsZero(Box::new(Expr::SLoad(a))) } else { Expr::SLoad(a) };
@@ -499,6 +508,23 @@ pub fn scenario(g: &GenCfg) -> BoxedStrategy<Scenario> {
                     if chain {
                         // one hot contract; transactions from (mostly) distinct senders call its routines
                         contracts[0] = chain_con;
+                        if g.chain_destroy {
+                            let victim = ContractDef {
+                                balance: Bal::Wei(5),
+                                storage: vec![(0, 3), (1, 4)],
+                                code: Code::Routines(vec![
+                                    vec![Stmt::Return(Expr::Add(Box::new(Expr::SLoad(0)), Box::new(Expr::SLoad(1))))],
+                                    vec![Stmt::SelfDestruct(AddrRef::Absent(2))],
+                                    vec![Stmt::SStore(0, Expr::CallDataWord(0))],
+                                    vec![Stmt::SelfDestruct(AddrRef::Absent(2)), Stmt::Revert],
+                                ]),
+                            };
+                            if contracts.len() >= 2 {
+                                contracts[1] = victim;
+                            } else {
+                                contracts.push(victim);
+                            }
+                        }
                         if g.chain_fund {
                             for k in 0..eoas.len().min(3) {
                                 if (chain_sel[k].1 as usize + k) % 2 == 0 {
@@ -824,6 +850,217 @@ pub fn flipflop_scenario(g: &GenCfg) -> BoxedStrategy<Scenario> {
             sc.disable_nonce_check = false;
             sc.grevm.concurrency = sc.grevm.concurrency.max(2);
             sc.grevm.force_sequential = false;
+            sc
+        })
+        .boxed()
+}
+
+// ---------------------------------------------------------------------------------------------
+// Destroy/create race template (C08): whether a transaction destroys (or creates) an account
+// depends on a guard slot an EARLIER transaction of the block sets, so a speculative incarnation
+// may destroy/create it while the final one does not (or vice versa); later transactions probe the
+// account's storage and existence.
+// ---------------------------------------------------------------------------------------------
+
+pub fn destroy_race_scenario(g: &GenCfg) -> BoxedStrategy<Scenario> {
+    let mut g2 = g.clone();
+    g2.chain_pm = 0;
+    g2.fund_pm = 0;
+    g2.min_txs = 4;
+    g2.max_txs = g.max_txs.max(6);
+    (scenario(&g2), 0u8..4, any::<bool>(), any::<bool>(), 0u8..4, proptest::collection::vec(0u8..3, 6), 0u8..INIT_KINDS, 0u8..2)
+        .prop_map(|(mut sc, guard, polarity, final_destroys, variant, gaps, init, salt)| {
+            if sc.txs.len() < 4 || sc.world.eoas.len() < 3 {
+                return sc;
+            }
+            // pre-state guard value g0; the setter writes g1; the conditional action fires on `fire_on`
+            let (g0, g1) = if polarity { (0u64, 1u64) } else { (1u64, 0u64) };
+            let fire_on_g1 = final_destroys;
+            let cond_true_when_one = (g1 == 1) == fire_on_g1;
+            let cond = if cond_true_when_one { Expr::SLoad(guard) } else { Expr::IsZero(Box::new(Expr::SLoad(guard))) };
+            let pslot = (guard + 1) % 5;
+            let created = AddrRef::Created2 { creator: 0, salt, init };
+            let (action, probe_target): (Stmt, AddrRef) = match variant {
+                // destroy the victim through a call
+                0 => (Stmt::Call { kind: CallKind::Call, target: AddrRef::Con(1), value: 0, sel: 1, arg: None, small_gas: false, store: None }, AddrRef::Con(1)),
+                // the same inside a frame that reverts: never destroys
+                1 => (Stmt::Call { kind: CallKind::Call, target: AddrRef::Con(1), value: 0, sel: 3, arg: None, small_gas: false, store: None }, AddrRef::Con(1)),
+                // conditional CREATE2 (init code may write storage)
+                2 => (Stmt::Create { create2: true, salt, init, value: 0, store: Some((guard + 2) % 5) }, created.clone()),
+                // destroy, then re-create something else in the same transaction
+                _ => (Stmt::Call { kind: CallKind::Call, target: AddrRef::Con(1), value: 0, sel: 1, arg: None, small_gas: false, store: Some((guard + 2) % 5) }, AddrRef::Con(1)),
+            };
+            let probe = vec![
+                Stmt::Call { kind: CallKind::Call, target: probe_target.clone(), value: 0, sel: 0, arg: None, small_gas: false, store: Some(pslot) },
+                Stmt::SStore((guard + 3) % 5, Expr::Add(Box::new(Expr::ExtCodeSize(probe_target.clone())), Box::new(Expr::Balance(probe_target)))),
+            ];
+            sc.world.contracts[0] = ContractDef {
+                balance: Bal::Zero,
+                storage: vec![(guard, g0)],
+                code: Code::Routines(vec![vec![Stmt::SStore(guard, Expr::Const(g1))], vec![Stmt::If(cond, vec![action], vec![])], probe, vec![Stmt::SStore(guard, Expr::Const(g0))]]),
+            };
+            let victim = ContractDef {
+                balance: Bal::Wei(5),
+                storage: vec![(0, 3), (1, 4)],
+                code: Code::Routines(vec![
+                    vec![Stmt::Return(Expr::Add(Box::new(Expr::SLoad(0)), Box::new(Expr::SLoad(1))))],
+                    vec![Stmt::SelfDestruct(AddrRef::Absent(2))],
+                    vec![Stmt::SStore(0, Expr::CallDataWord(0))],
+                    vec![Stmt::SelfDestruct(AddrRef::Absent(2)), Stmt::Revert],
+                ]),
+            };
+            if sc.world.contracts.len() >= 2 {
+                sc.world.contracts[1] = victim;
+            } else {
+                sc.world.contracts.push(victim);
+            }
+            for e in sc.world.eoas.iter_mut() {
+                e.balance = Bal::Ether(10);
+                e.nonce = e.nonce.min(100);
+            }
+            let n = sc.txs.len();
+            let ne = sc.world.eoas.len() as u8;
+            // roles: setter, conditional action, probe, (probe again)
+            let roles = [0u8, 1, 2, 2];
+            let mut pos = 0usize;
+            let mut role_pos = [usize::MAX; 4];
+            for (k, sel) in roles.iter().enumerate() {
+                pos += (gaps[k] as usize) % 2;
+                if pos >= n {
+                    break;
+                }
+                sc.txs[pos] = TxDef { sender: (k as u8 + gaps[k]) % ne, sel: *sel, to: TxTo::Call(AddrRef::Con(0)), gas: GasDef::Limit(400_000), price_delta: 1, tx_type: 0, ..TxDef::default() };
+                role_pos[k] = pos;
+                pos += 1;
+            }
+            for t in sc.txs.iter_mut() {
+                if t.tx_type == 4 {
+                    t.tx_type = 0;
+                    t.auths.clear();
+                }
+            }
+            if gaps[4] != 0 && role_pos[1] != usize::MAX {
+                if let Some(s) = sc.schedule.as_mut() {
+                    s.holds.clear();
+                    // the setter waits until the conditional action ran once on the pre-state guard
+                    s.holds.push(Hold { role: role::WORKER, nth_thread: 255, at: pt::EXEC_START, arg: Some(role_pos[0] as u16), nth: 0, until: Until::EventOrSteps(2, gaps[5] % 2, 1200) });
+                    if role_pos[2] != usize::MAX && gaps[3] != 0 {
+                        s.holds.push(Hold { role: role::WORKER, nth_thread: 255, at: pt::EXEC_START, arg: Some(role_pos[2] as u16), nth: 0, until: Until::EventOrSteps(2, 1 + gaps[3], 2000) });
+                    }
+                    sc.grevm.concurrency = sc.grevm.concurrency.max(3);
+                }
+            }
+            sc.grevm.force_sequential = false;
+            sc
+        })
+        .boxed()
+}
+
+// ---------------------------------------------------------------------------------------------
+// Re-delegation race template (C09): an account's EIP-7702 delegation is set, re-pointed and
+// possibly cleared / set again by consecutive transactions, and later transactions call into the
+// account, inspect its code and send from it, while schedules pause a publishing worker between
+// the account's Basic and Code versions.
+// ---------------------------------------------------------------------------------------------
+
+pub fn redelegate_race_scenario(g: &GenCfg) -> BoxedStrategy<Scenario> {
+    let mut g2 = g.clone();
+    g2.chain_pm = 0;
+    g2.fund_pm = 0;
+    g2.min_txs = 4;
+    g2.max_txs = g.max_txs.max(7);
+    g2.specs = vec![(3, 12), (2, 13)];
+    g2.w_7702 = 1;
+    (scenario(&g2), proptest::collection::vec((0u8..4, 0u8..3, any::<bool>()), 2..5), proptest::collection::vec(0u8..4, 3..6), 0u8..3, proptest::collection::vec(0u8..4, 4))
+        .prop_map(|(mut sc, auth_steps, probes, who, knobs)| {
+            if sc.world.eoas.len() < 3 || sc.txs.len() < 4 {
+                return sc;
+            }
+            let a = (who as usize % sc.world.eoas.len().min(3)) as u8; // the re-delegated account
+            // two distinguishable delegate targets
+            let x = ContractDef { balance: Bal::Zero, storage: vec![], code: Code::Routines(vec![vec![Stmt::SStore(0, Expr::Add(Box::new(Expr::SLoad(0)), Box::new(Expr::Const(1))))], vec![Stmt::Return(Expr::Const(11))]]) };
+            let y = ContractDef { balance: Bal::Zero, storage: vec![], code: Code::Routines(vec![vec![Stmt::SStore(1, Expr::Add(Box::new(Expr::SLoad(1)), Box::new(Expr::Const(2))))], vec![Stmt::Return(Expr::Const(22))]]) };
+            let inspector = ContractDef {
+                balance: Bal::Zero,
+                storage: vec![],
+                code: Code::Routines(vec![
+                    vec![Stmt::SStore(0, Expr::ExtCodeHash(AddrRef::Eoa(a))), Stmt::SStore(1, Expr::ExtCodeSize(AddrRef::Eoa(a)))],
+                    vec![Stmt::SStore(2, Expr::ExtCodeCopyWord(AddrRef::Eoa(a)))],
+                    vec![Stmt::Call { kind: CallKind::Call, target: AddrRef::Eoa(a), value: 0, sel: 1, arg: None, small_gas: false, store: Some(3) }],
+                ]),
+            };
+            sc.world.contracts = vec![x, y, inspector];
+            for e in sc.world.eoas.iter_mut() {
+                e.balance = Bal::Ether(10);
+                e.nonce = e.nonce.min(100);
+                e.delegate = None;
+            }
+            if knobs[0] == 0 {
+                sc.world.eoas[a as usize].delegate = Some(AddrRef::Con(0));
+            }
+            let ne = sc.world.eoas.len() as u8;
+            let n = sc.txs.len();
+            let mut pos = 0usize;
+            let mut auth_pos = Vec::new();
+            // authorisation transactions (sponsored by someone else or self-sponsored)
+            for (k, (target, sponsor, wrong)) in auth_steps.iter().enumerate() {
+                if pos >= n {
+                    break;
+                }
+                let sponsor = if *sponsor == 0 { a } else { (a + *sponsor) % ne };
+                let target = match target {
+                    0 => Some(AddrRef::Con(0)),
+                    1 => Some(AddrRef::Con(1)),
+                    2 => None, // clear
+                    _ => Some(AddrRef::Con((k % 2) as u8)),
+                };
+                sc.txs[pos] = TxDef {
+                    sender: sponsor,
+                    to: TxTo::Call(AddrRef::Eoa(sponsor)),
+                    tx_type: 4,
+                    prio: Some(1),
+                    price_delta: 1,
+                    gas: GasDef::Limit(120_000),
+                    auths: vec![AuthDef { authority: Some(a), target, nonce: if *wrong && k > 0 { AuthNonce::Wrong } else { AuthNonce::Correct }, chain: (k % 2) as u8 }],
+                    ..TxDef::default()
+                };
+                auth_pos.push(pos);
+                pos += 1 + (knobs[1] as usize % 2) * (k % 2);
+            }
+            // probes: call the account, inspect it, send from it
+            let mut probe_pos = Vec::new();
+            for (k, p) in probes.iter().enumerate() {
+                if pos >= n {
+                    break;
+                }
+                sc.txs[pos] = match p {
+                    0 => TxDef { sender: (a + 1) % ne, to: TxTo::Call(AddrRef::Eoa(a)), sel: 0, gas: GasDef::Limit(120_000), price_delta: 1, tx_type: 0, ..TxDef::default() },
+                    1 => TxDef { sender: (a + 2) % ne, to: TxTo::Call(AddrRef::Con(2)), sel: (k % 3) as u8, gas: GasDef::Limit(400_000), price_delta: 1, tx_type: 0, ..TxDef::default() },
+                    2 => TxDef { sender: a, to: TxTo::Call(AddrRef::Absent(1)), value: ValueDef::Wei(5), gas: GasDef::Limit(60_000), price_delta: 1, tx_type: 0, ..TxDef::default() },
+                    _ => TxDef { sender: a, to: TxTo::Call(AddrRef::Eoa(a)), sel: 0, gas: GasDef::Limit(120_000), price_delta: 1, tx_type: 2, prio: Some(1), ..TxDef::default() },
+                };
+                probe_pos.push(pos);
+                pos += 1;
+            }
+            for (i, t) in sc.txs.iter_mut().enumerate() {
+                if !auth_pos.contains(&i) && t.tx_type == 4 {
+                    t.tx_type = 0;
+                    t.auths.clear();
+                }
+            }
+            // pause a publishing worker inside the window between Basic and Code of a re-pointing tx
+            if knobs[2] != 0 && auth_pos.len() >= 2 {
+                if let Some(s) = sc.schedule.as_mut() {
+                    s.holds.clear();
+                    let victim = auth_pos[1 + (knobs[3] as usize) % (auth_pos.len() - 1)];
+                    for nth in 0..3u8 {
+                        s.holds.push(Hold { role: role::WORKER, nth_thread: 255, at: pt::DB_PUBLISH, arg: Some(victim as u16), nth: 1 + nth, until: Until::EventOrSteps(2, 0, 60 + 40 * knobs[2] as u32) });
+                    }
+                    sc.grevm.concurrency = sc.grevm.concurrency.max(3);
+                }
+            }
+            sc.grevm.force_sequential = false;
+            sc.disable_nonce_check = false;
             sc
         })
         .boxed()
